@@ -2,6 +2,7 @@ import Tv.Thm.C11GenA
 import Tv.Lemmas.GenSim
 import Tv.Thm.C11
 import Mathlib.Tactic.Ring
+import Mathlib.Tactic.SplitIfs
 import Mathlib.Tactic.NormNum
 set_option linter.unusedSimpArgs false
 set_option linter.unusedTactic false
@@ -389,4 +390,42 @@ theorem plain_argmin_eq (sqrt : Rat → Rat) (xs : List Rat) :
 
 theorem plain_functions_present :
     GenAgg.plain.functions = ["count_value", "first", "last", "n_sum", "sum", "mean", "max", "min", "argmax", "argmin"] := rfl
+/-! ## the masked aggregations of tea-agg (`n_vsum_filter`, `n_sum_filter`, `vmean_filter`), regenerated -/
+
+theorem filterMap_keepFlag (F : Option Rat × Option Bool → Option (Option Rat)) (hF : ∀ v f, F (v, f) = keepFlag (v, f))
+    (l : List (Option Rat × Option Bool)) : l.filterMap F = l.filterMap keepFlag := by
+  apply List.filterMap_congr
+  rintro ⟨v, f⟩ _
+  exact hF v f
+
+theorem n_vsum_filter_eq (sqrt : Rat → Rat) (xs : List (Option Rat)) (mask : List (Option Bool)) :
+    GenAgg.n_vsum_filter.run sqrt xs mask = C11.nVsumFilter xs mask := by
+  unfold GenAgg.n_vsum_filter.run C11.nVsumFilter
+  simp only [vfoldN_eq]
+  rw [filterMap_keepFlag _ (fun v f => by cases f with
+    | none => rfl
+    | some b => cases b <;> rfl)]
+
+theorem n_sum_filter_agree (sqrt : Rat → Rat) (xs : List (Option Rat)) (mask : List (Option Bool)) :
+    Agree sqrt (GenAgg.n_sum_filter.run sqrt xs mask) (C11.nSumFilter xs mask) := by
+  unfold GenAgg.n_sum_filter.run C11.nSumFilter
+  simp only [n_vsum_filter_eq]
+  generalize C11.nVsumFilter xs mask = p
+  obtain ⟨n, s⟩ := p
+  by_cases h : n > 0 <;> simp [h, Agree]
+
+theorem vmean_filter_agree (sqrt : Rat → Rat) (xs : List (Option Rat)) (mask : List (Option Bool)) (mp : Nat) :
+    Agree sqrt (GenAgg.vmean_filter.run sqrt xs mask mp) (C11.vmeanFilter mp xs mask) := by
+  unfold GenAgg.vmean_filter.run C11.vmeanFilter
+  simp only [n_vsum_filter_eq]
+  generalize C11.nVsumFilter xs mask = p
+  obtain ⟨n, s⟩ := p
+  by_cases h : n ≥ mp
+  · simp only [h, decide_true, if_true, Out.div]
+    split_ifs <;> simp [Agree]
+  · simp [h, Agree]
+
+theorem n_vsum_filter_spec (sqrt : Rat → Rat) (xs : List (Option Rat)) (mask : List (Option Bool)) :
+    GenAgg.n_vsum_filter.run sqrt xs mask = Spec.nVsumFilter xs mask := by
+  rw [n_vsum_filter_eq, C11.n_vsum_filter_exact]
 end Tv.C11Gen
